@@ -156,7 +156,16 @@ fn run_fs(acts: &str) -> String {
             _ => return "driver-error bad-action".into(),
         };
         if next {
-            match fs.poll_next(&mut cx) {
+            let r = std::panic::catch_unwind(std::panic::AssertUnwindSafe(|| fs.poll_next(&mut cx)));
+            let r = match r {
+                Ok(r) => r,
+                Err(_) => {
+                    out.push("panic".into());
+                    done = true;
+                    continue;
+                }
+            };
+            match r {
                 Poll::Pending => out.push("pend".into()),
                 Poll::Ready(Ok(None)) => {
                     out.push("end".into());
@@ -177,11 +186,19 @@ fn run_fs(acts: &str) -> String {
             }
         } else {
             // the `impl Buf` borrows the stream: turn it into owned bytes first
-            let r = match fs.poll_data(&mut cx) {
+            let r = std::panic::catch_unwind(std::panic::AssertUnwindSafe(|| match fs.poll_data(&mut cx) {
                 Poll::Pending => None,
                 Poll::Ready(Ok(None)) => Some(Ok(None)),
                 Poll::Ready(Ok(Some(mut d))) => Some(Ok(Some(d.copy_to_bytes(d.remaining())))),
                 Poll::Ready(Err(e)) => Some(Err(e)),
+            }));
+            let r = match r {
+                Ok(r) => r,
+                Err(_) => {
+                    out.push("panic".into());
+                    done = true;
+                    continue;
+                }
             };
             match r {
                 None => out.push("pend".into()),
@@ -200,9 +217,115 @@ fn run_fs(acts: &str) -> String {
     out.join(" ")
 }
 
+/// the close code the REAL h3 endpoint uses when `bytes` (+FIN) arrive on a request stream (site s: server reading a
+/// request, c: client reading a response) or on the peer's control stream after the stream type and an empty SETTINGS
+fn run_hc(site: &str, bytes: &[u8], fin: bool) -> String {
+    use h3v::simquic::*;
+    let server = site != "c";
+    let w = World::new(if server { Side::Server } else { Side::Client }, 100, 100, None);
+    let mut ex = Exec::new();
+    let w2 = w.clone();
+    let keep: Rc<RefCell<Option<h3::client::SendRequest<SimOpener, Bytes>>>> = Rc::new(RefCell::new(None));
+    let keep2 = keep.clone();
+    if server {
+        ex.spawn(async move {
+            let mut conn: h3::server::Connection<SimConn, Bytes> = match h3::server::builder().build(SimConn { world: w2 }).await {
+                Ok(c) => c,
+                Err(_) => return "build-err".to_string(),
+            };
+            loop {
+                match conn.accept().await {
+                    Ok(Some(resolver)) => {
+                        if let Ok((_req, mut stream)) = resolver.resolve_request().await {
+                            loop {
+                                match stream.recv_data().await {
+                                    Ok(Some(_)) => {}
+                                    Ok(None) => {
+                                        let _ = stream.recv_trailers().await;
+                                        break;
+                                    }
+                                    Err(_) => break,
+                                }
+                            }
+                        }
+                    }
+                    Ok(None) => return "accept-none".to_string(),
+                    Err(_) => return "accept-err".to_string(),
+                }
+            }
+        });
+    } else {
+        let w3 = w.clone();
+        ex.spawn(async move {
+            let (mut driver, mut sender) = match h3::client::new(SimConn { world: w3 }).await {
+                Ok(x) => x,
+                Err(_) => return "build-err".to_string(),
+            };
+            let req = http::Request::builder().method("GET").uri("https://a/").body(()).unwrap();
+            let mut stream = match sender.send_request(req).await {
+                Ok(s) => s,
+                Err(_) => return "send-err".to_string(),
+            };
+            *keep2.borrow_mut() = Some(sender);
+            let _ = stream.finish().await;
+            let fut = async {
+                if stream.recv_response().await.is_ok() {
+                    loop {
+                        match stream.recv_data().await {
+                            Ok(Some(_)) => {}
+                            Ok(None) => {
+                                let _ = stream.recv_trailers().await;
+                                break;
+                            }
+                            Err(_) => break,
+                        }
+                    }
+                }
+            };
+            fut.await;
+            let _ = std::future::poll_fn(|cx| driver.poll_close(cx)).await;
+            "closed".to_string()
+        });
+    }
+    ex.run();
+    let mut evs: Vec<String> = Vec::new();
+    if site == "ctl" {
+        evs.push("U2".into());
+        evs.push("2:c:000400".into());
+        if !bytes.is_empty() {
+            evs.push(format!("2:c:{}", hex(bytes)));
+        }
+        if fin {
+            evs.push("2:F".into());
+        }
+    } else {
+        if server {
+            evs.push("B0".into());
+        }
+        if !bytes.is_empty() {
+            evs.push(format!("0:c:{}", hex(bytes)));
+        }
+        if fin {
+            evs.push("0:F".into());
+        }
+    }
+    for e in evs {
+        if !apply_event(&w, &e) {
+            return format!("driver-error bad-event {}", e);
+        }
+        ex.run();
+    }
+    let g = w.lock().unwrap();
+    match &g.closed {
+        Some((c, _)) => format!("code {}", c),
+        None => "code -".to_string(),
+    }
+}
+
 fn main() {
     run_lines(|ws| match ws {
         ["fs", acts] => run_fs(acts),
+        ["hc", site, h, ending] => run_hc(site, &unhex(h), *ending == "F"),
         ["fd", h] => {
             let mut b = Bytes::from(unhex(h));
             let before = b.remaining();
